@@ -1,0 +1,43 @@
+//go:build verif
+// +build verif
+
+// Package verifhook provides named schedule and crash points used by the
+// verification harness. With the build tag `verif` a handler installed by the
+// harness is called at every point; with no handler installed the points
+// return at once.
+package verifhook
+
+import "sync/atomic"
+
+var pointHandler atomic.Value // func(string, uint32)
+var crashHandler atomic.Value // func(string)
+
+// SetPoint installs (or with nil removes) the schedule-point handler.
+func SetPoint(f func(name string, id uint32)) {
+	if f == nil {
+		f = func(string, uint32) {}
+	}
+	pointHandler.Store(f)
+}
+
+// SetCrash installs (or with nil removes) the crash-point handler.
+func SetCrash(f func(name string)) {
+	if f == nil {
+		f = func(string) {}
+	}
+	crashHandler.Store(f)
+}
+
+// Point marks a schedule point.
+func Point(name string, id uint32) {
+	if h, ok := pointHandler.Load().(func(string, uint32)); ok {
+		h(name, id)
+	}
+}
+
+// Crash marks a crash point.
+func Crash(name string) {
+	if h, ok := crashHandler.Load().(func(string)); ok {
+		h(name)
+	}
+}
